@@ -4,7 +4,9 @@ From Coq Require Import String.
 From AvroV Require Import Base Varint Schema Bytes Names Codec Conforms Layout Validate Rabin SingleObject Resolve Compat Resolution Container Sink Settings Sexp Lit SchemaJson PCF Parser CodecFrame BlockAudit.
 Local Open Scope string_scope.
 
-Definition run_fuel : nat := 300.
+(* every nesting level of a recursive schema costs a few units (record, field, array, reference): inputs of a few hundred
+   bytes can nest a hundred levels deep *)
+Definition run_fuel : nat := 1500.
 
 Definition obs_err : sexp := L [Sym "err"].
 Definition obs_bad : sexp := L [Sym "bad-case"].
